@@ -37,6 +37,10 @@ import (
 type gjob struct {
 	id    string
 	needs []string
+	// body: "" an ordinary job; "nosteps" runs-on and needs but no steps (a job that is not
+	// finished yet); "null" / "scalar" / "seq": the value of the job key is not a mapping at all
+	body string
+	raw  bool // needs entries written without quotes (null, ~, Null are job ids like any other)
 }
 
 type spec struct {
@@ -99,8 +103,21 @@ func (s *spec) yaml() string {
 	}
 	b.WriteString("on: push\njobs:\n")
 	for _, j := range s.jobs {
+		switch j.body {
+		case "null":
+			b.WriteString("  " + j.id + ":\n")
+			continue
+		case "scalar":
+			b.WriteString("  " + j.id + ": TODO\n")
+			continue
+		case "seq":
+			b.WriteString("  " + j.id + ": [x]\n")
+			continue
+		}
 		b.WriteString("  " + j.id + ":\n")
-		if len(j.needs) == 1 && s.scalarNeeds {
+		if j.raw && len(j.needs) > 0 {
+			b.WriteString("    needs: [" + strings.Join(j.needs, ", ") + "]\n")
+		} else if len(j.needs) == 1 && s.scalarNeeds {
 			b.WriteString("    needs: " + strconv.Quote(j.needs[0]) + "\n")
 		} else if len(j.needs) > 0 {
 			qs := make([]string, len(j.needs))
@@ -108,6 +125,10 @@ func (s *spec) yaml() string {
 				qs[i] = strconv.Quote(n)
 			}
 			b.WriteString("    needs: [" + strings.Join(qs, ", ") + "]\n")
+		}
+		if j.body == "nosteps" {
+			b.WriteString("    runs-on: x\n")
+			continue
 		}
 		b.WriteString("    runs-on: x\n    steps:\n      - run: echo\n")
 	}
@@ -681,7 +702,7 @@ func variantSpecs(l0, l1, l2 int) []*spec {
 	for _, n0 := range s0 {
 		for _, n1 := range s1 {
 			for _, n2 := range s2 {
-				out = append(out, &spec{group: "variants", jobs: []gjob{{"a", n0}, {"B", n1}, {"c", n2}}})
+				out = append(out, &spec{group: "variants", jobs: []gjob{{id: "a", needs: n0}, {id: "B", needs: n1}, {id: "c", needs: n2}}})
 			}
 		}
 	}
@@ -697,8 +718,8 @@ func foldSpecs() []*spec {
 		refs := []string{a, b, c, "ghost"}
 		for _, n0 := range seqs(refs, 2) {
 			for _, n1 := range seqs([]string{a, b}, 1) {
-				out = append(out, &spec{group: "unicode-fold", jobs: []gjob{{a, n0}, {c, n1}}})           // b does not exist: dangling
-				out = append(out, &spec{group: "unicode-fold", jobs: []gjob{{a, n0}, {b, n1}, {c, nil}}}) // b exists
+				out = append(out, &spec{group: "unicode-fold", jobs: []gjob{{id: a, needs: n0}, {id: c, needs: n1}}})          // b does not exist: dangling
+				out = append(out, &spec{group: "unicode-fold", jobs: []gjob{{id: a, needs: n0}, {id: b, needs: n1}, {id: c}}}) // b exists
 			}
 		}
 	}
@@ -741,6 +762,54 @@ func oddSpecs() []*spec {
 			}
 		}
 	}
+	// jobs that are not finished yet (no steps; a value that is not a mapping) are jobs all the
+	// same: they can be needed, and what they need is checked; ids spelled like the YAML null
+	for _, body := range []string{"nosteps", "null", "scalar", "seq"} {
+		for mask := 0; mask < 1<<6; mask++ {
+			sp := &spec{group: "unfinished-jobs"}
+			ids := []string{"a", "wip", "c"}
+			for i, id := range ids {
+				j := gjob{id: id}
+				if id == "wip" {
+					j.body = body
+				}
+				for k, tgt := range []string{ids[(i+1)%3], "ghost"} {
+					if mask>>(uint(i*2+k))&1 == 1 && (j.body == "" || j.body == "nosteps") {
+						j.needs = append(j.needs, tgt)
+					}
+				}
+				if id == "wip" && body == "nosteps" && mask%5 == 0 {
+					j.needs = append(j.needs, "wip")
+				}
+				sp.jobs = append(sp.jobs, j)
+			}
+			out = append(out, sp)
+		}
+	}
+	for _, nid := range []string{"null", "~", "Null", "NULL"} {
+		for mask := 0; mask < 1<<4; mask++ {
+			sp := &spec{group: "null-spelled-ids"}
+			a := gjob{id: "a", raw: true}
+			n := gjob{id: nid, raw: true}
+			if mask&1 == 1 {
+				a.needs = append(a.needs, nid)
+			}
+			if mask&2 == 2 {
+				a.needs = append(a.needs, "b")
+			}
+			if mask&4 == 4 {
+				n.needs = append(n.needs, "a")
+			}
+			if mask&8 == 8 {
+				n.needs = append(n.needs, nid)
+			}
+			sp.jobs = []gjob{a, n}
+			if mask%3 == 0 {
+				sp.jobs = []gjob{n, a}
+			}
+			out = append(out, sp)
+		}
+	}
 	// more dangling references in one workflow than any per-rule budget of diagnostics
 	{
 		sp := &spec{group: "many-dangling"}
@@ -762,9 +831,9 @@ func oddSpecs() []*spec {
 	perms := [][]string{{"setup", "Setup", "test"}, {"setup", "test", "Setup"}, {"test", "setup", "SETUP"}, {"setup", "setup", "test"}, {"Setup", "test", "test", "setup"}, {"test", "setup", "setup"}}
 	for _, p := range perms {
 		for _, order := range [][3]int{{0, 1, 2}, {1, 2, 0}, {2, 0, 1}, {1, 0, 2}} {
-			jobs := []gjob{{"setup", nil}, {"build", p}, {"test", []string{"build"}}}
+			jobs := []gjob{{id: "setup"}, {id: "build", needs: p}, {id: "test", needs: []string{"build"}}}
 			out = append(out, &spec{group: "duplicate-next-to-cycle", jobs: []gjob{jobs[order[0]], jobs[order[1]], jobs[order[2]]}})
-			jobs4 := []gjob{{"setup", nil}, {"lint", []string{"setup", "Setup"}}, {"build", append(append([]string{}, p...), "lint", "LINT")}, {"test", []string{"build", "lint", "lint"}}}
+			jobs4 := []gjob{{id: "setup"}, {id: "lint", needs: []string{"setup", "Setup"}}, {id: "build", needs: append(append([]string{}, p...), "lint", "LINT")}, {id: "test", needs: []string{"build", "lint", "lint"}}}
 			out = append(out, &spec{group: "duplicate-next-to-cycle", jobs: []gjob{jobs4[order[0]], jobs4[order[1]], jobs4[order[2]], jobs4[3]}})
 		}
 	}
@@ -881,7 +950,7 @@ func bigSpec(r *hx.Rng) *spec {
 		}
 	}
 	for i := 0; i < n; i++ {
-		sp.jobs = append(sp.jobs, gjob{ids[i], needs[i]})
+		sp.jobs = append(sp.jobs, gjob{id: ids[i], needs: needs[i]})
 	}
 	sp.ords = randOrds(r, ids, 6)
 	return sp
